@@ -508,7 +508,7 @@ def main():
         run.violation("table translator failed closed: " + "; ".join(errors), dict(kind="translator", errors=errors), False)
         return run.finish()
     if changed: run.log("tables regenerated:", changed)
-    ok, log = run.build(["Proofs/C11/Tokenizer.vo", "Proofs/C11/Time.vo", "Proofs/C11/Region.vo", "Model/VttCases.vo"],
+    ok, log = run.build(["Proofs/C11/Tokenizer.vo", "Proofs/C11/Time.vo", "Proofs/C11/Region.vo", "Proofs/C11/Tree.vo", "Model/VttCases.vo"],
                         clean=(run.tier == "thorough"))
     proofs_ok = ok and run.theorems()
     if not ok: run.proof_log = log[-2500:]
@@ -554,7 +554,7 @@ def main():
     # ---- mutated / hand-written files (M = code only) ---------------------------------------------------
     texts = [p_file(f) for f in gram]
     mut = list(HAND)
-    corpus = []
+    corpus = []; corpus_skipped = []
     for root, _, files in os.walk(C.REPO + "/src/test/resources/vtt"):
         for fn in sorted(files):
             if fn.endswith(".vtt"):
@@ -562,7 +562,9 @@ def main():
                     s = open(os.path.join(root, fn), encoding="utf-8").read()
                 except (UnicodeDecodeError, OSError):
                     continue
-                if len(s) < 6000 and not re.search(r"[٠-٩۰-۹०-९０-９]", s): corpus.append(s)
+                # outside the model's stated domain: non-ASCII digits; numbers of 16+ digits (binary floating point is then inexact)
+                if len(s) < 6000 and not re.search(r"[٠-٩۰-۹०-९０-９]", s) and not re.search(r"\d{16,}", s): corpus.append(s)
+                else: corpus_skipped.append(fn)
     mut += corpus
     while len(mut) < n_mut + len(HAND) + len(corpus):
         mut.append(mutate(rng, rng.choice(texts)))
@@ -726,7 +728,7 @@ def main():
                         "configurations (model = code, and cues written = cues read); cue texts and mutated cue texts through the tokenizer. "
                         "distinct_nontrivial = number of distinct input texts.",
                    samples=[dict(file=texts[0][:400]), dict(cue_text=cue_texts[-1]), dict(written=written[0][0][:300])],
-                   files=dict(grammar=len(gram_cases), mutated_and_corpus=len(mut_cases), corpus=len(corpus), writer_outputs=len(wr_cases), cue_texts=len(tok_cases)),
+                   files=dict(grammar=len(gram_cases), mutated_and_corpus=len(mut_cases), corpus=len(corpus), corpus_skipped=corpus_skipped, writer_outputs=len(wr_cases), cue_texts=len(tok_cases)),
                    cues=ncues, setting_combinations_covered=len(combos_seen), setting_combinations_total=N_COMBOS,
                    block_histogram=dict(hist), cue_node_histogram=dict(tags), outcome_histogram=dict(out_hist),
                    writer_failures=dict(Counter(wr_fail)),
